@@ -2,7 +2,8 @@
 //! this binary, so argv[0] is exactly the path monorail resolved).
 //!
 //! * controlled mode (`VHELPER_CTL=<unix socket>`): announce {argv, cwd, pid}, then obey a line
-//!   protocol - `out <hex>`, `err <hex>`, `sleep <ms>`, `closeout`, `closeerr`, `exit <code>` -
+//!   protocol - `out <hex>`, `err <hex>`, `sleep <ms>`, `closeout`, `closeerr`, `spawn <file> <hex argv>`,
+//!   `exit <code>` -
 //!   acknowledging each step with `ok`. The child makes no progress the controller did not order.
 //! * trace mode (`VHELPER_TRACE=<dir>`): write `<dir>/<pid>.json` (argv, cwd, monotonic start),
 //!   play `<VHELPER_SCRIPTS>/<sha256(cwd \0 argv0)>` if present (same line syntax), append the end
@@ -101,6 +102,39 @@ fn step(line: &str, st: &mut Streams) -> Option<i32> {
             libc::kill(libc::getpid(), arg.parse().unwrap_or(9));
             std::thread::sleep(std::time::Duration::from_secs(5));
         },
+        "spawn" => {
+            // "<result file> <hex of NUL-separated argv>": run a nested process to completion with the
+            // environment this executable inherited from monorail (minus the harness's own control
+            // variables, so that the nested process runs free) and record how it ended
+            let mut p = arg.splitn(2, ' ');
+            let outfile = p.next().unwrap_or("").to_string();
+            let bytes = unhex(p.next().unwrap_or(""));
+            let parts: Vec<String> = bytes
+                .split(|b| *b == 0)
+                .map(|s| String::from_utf8_lossy(s).into_owned())
+                .collect();
+            if let Some((prog, rest)) = parts.split_first() {
+                let mut cmd = std::process::Command::new(prog);
+                cmd.args(rest);
+                for (k, _) in std::env::vars() {
+                    if k.starts_with("VHELPER_") || k.starts_with("MONORAIL_VERIF_") {
+                        cmd.env_remove(k);
+                    }
+                }
+                cmd.stdin(std::process::Stdio::null());
+                let hex = |b: &[u8]| b.iter().map(|x| format!("{:02x}", x)).collect::<String>();
+                let body = match cmd.output() {
+                    Ok(o) => format!(
+                        "{{\"code\":{},\"out\":\"{}\",\"err\":\"{}\"}}",
+                        o.status.code().unwrap_or(-1),
+                        hex(&o.stdout),
+                        hex(&o.stderr)
+                    ),
+                    Err(e) => format!("{{\"code\":-2,\"out\":\"\",\"err\":\"{}\"}}", hex(e.to_string().as_bytes())),
+                };
+                let _ = std::fs::write(&outfile, body);
+            }
+        }
         "exit" => return Some(arg.parse().unwrap_or(0)),
         _ => {}
     }
